@@ -24,6 +24,14 @@ def reset_stage_for_retry(stage: StageExecution) -> None:
     # split's recorded branch activations belong to the previous iteration.
     for key in ("_join_fired", "_completed_branches", "_activated_branches"):
         stage.context.pop(key, None)
+    # Drop what _plan_stage hydrated from ancestor outputs: the next plan merges
+    # the ancestors' current outputs again; keeping the old copy would make it
+    # the stage's "own" context, which wins over (scalars) or piles up on (lists)
+    # the fresh values.
+    for key in stage.context.pop("_hydrated_keys", None) or []:
+        stage.context.pop(key, None)
+    for key, own_list in (stage.context.pop("_hydrated_own_lists", None) or {}).items():
+        stage.context[key] = own_list
     for task in stage.tasks:
         task.status = WorkflowStatus.NOT_STARTED
         task.start_time = None
